@@ -62,7 +62,8 @@ REQUESTS = [{'dir': REQ, 'fc': 3, 'address': 100, 'count': 3}, {'dir': REQ, 'fc'
             {'dir': REQ, 'fc': 23, 'read_address': 10, 'read_count': 6, 'write_address': 40, 'registers': [7, 8]},
             {'dir': REQ, 'fc': 23, 'read_address': 10, 'read_count': 1, 'write_address': 40, 'registers': [1, 2, 3, 4, 5]},
             {'dir': REQ, 'fc': 5, 'address': 12, 'value': 0xFF00}, {'dir': REQ, 'fc': 15, 'address': 20, 'bits': [True, False, True] * 5},
-            {'dir': REQ, 'fc': 4, 'address': 0, 'count': 60}, {'dir': REQ, 'fc': 8, 'sub': 0, 'data': [0xA5A5]}]
+            {'dir': REQ, 'fc': 4, 'address': 0, 'count': 60}, {'dir': REQ, 'fc': 8, 'sub': 0, 'data': [0xA5A5]},
+            {'dir': REQ, 'fc': 3, 'address': 0, 'count': 125}, {'dir': REQ, 'fc': 1, 'address': 0, 'count': 2000}]      # replies of the maximum size
 
 
 _BIN_SAFE = {}
@@ -147,7 +148,17 @@ def run_script(run, case):
     kinds = {}
     with IO.installed(env):
         kw = dict(timeout=TIMEOUT, retries=cfg['retries'], retry_on_empty=cfg['retry_on_empty'], retry_on_invalid=cfg['retry_on_invalid'])
-        client = IO.make_client(kind, **kw)
+        if case.get('via_defaults'):
+            # the retry options are configured through the process-wide Defaults and the keywords are left out
+            from pymodbus.constants import Defaults
+            saved = (Defaults.Retries, Defaults.RetryOnEmpty, Defaults.RetryOnInvalid)
+            Defaults.Retries, Defaults.RetryOnEmpty, Defaults.RetryOnInvalid = cfg['retries'], cfg['retry_on_empty'], cfg['retry_on_invalid']
+            try:
+                client = IO.make_client(kind, timeout=TIMEOUT)
+            finally:
+                Defaults.Retries, Defaults.RetryOnEmpty, Defaults.RetryOnInvalid = saved
+        else:
+            client = IO.make_client(kind, **kw)
         client.connect()
         base = 0
         if warm:
@@ -320,6 +331,8 @@ def run(run):
                     m = REQUESTS[idx % 3]           # (a binary frame with delimiter bytes in its body cannot be received: recorded finding, judged by C03/C08)
                 warm = (idx // 3) % 2 == 1            # every second script meets a client that has already completed a transaction
                 case = {'client': kind, 'cfg': cfg, 'script': list(names), 'm': m, 'bseed': idx, 'warm': warm}
+                if idx % 5 == 2 and cfg['retries'] >= 1:
+                    case['via_defaults'] = True          # (retries=0 through Defaults is the recorded `or 1` finding either way)
                 ok = run_script(run, case)
                 run.case(h64((kind, tuple(sorted(cfg.items())), names, m['fc'], warm)), any(n not in ('own',) for n in names),
                          sample={'client': kind, 'config': cfg, 'script': list(names), 'request_fc': m['fc'], 'warm_client': warm, 'verdict': 'bounded, result, recovered' if ok else 'differs'},
